@@ -196,4 +196,7 @@ pub fn run(g: &mut Global) {
     if g.tier == Tier::Thorough {
         g.random("long", 800, &|| strategy(4000, 10000), &check);
     }
+    if g.tier == Tier::Thorough {
+        g.fuzz_stage("ops_pred", Some(3), 600_000, "random", &|b| crate::fuzzdec::decode_c15(b), &check);
+    }
 }
